@@ -548,6 +548,8 @@ pub fn corpus() -> Vec<Plan> {
         p("many_fields_shrink", true, false, vec![add("toka8"), addu("u32"), add("string"), addu("u64"), add("toka3"), addu("u16"), add("tokb8"), addu("u8"), add("vecu32"), addu("u128"), add("toka16"), addu("p12"), add("boxtok"), addu("u8x3"), add("tokah"), addu("al16"), add("opttok"), addu("f64"), close(Simple), rm(0), rm(2), rm(4), rm(5), rm(6), rm(7), rm(8), rm(10), rm(11), rm(12), rm(13), rm(14), rm(15), rm(16), rm(17), add("toka8"), addu("u16"), close(Simple)]),
         // a field comes back under its old name and type after part of its old slot went to another field
         p("readd_same_slot", true, true, vec![add("u64"), addn("u64", "score"), close(Simple), rm(1), close(Simple), add("u32"), add("toka3"), close(Simple), rm(2), close(Simple), addn("u64", "score"), close(Simple), rm(4), addn("u64", "score"), close(Simple)]),
+        // more fields than serde's own tuple impls reach (16), with the serde fragment: 18, then 17, then 19
+        p("many_fields_serde", true, true, vec![add("u8"), add("toka8"), addu("u16"), add("string"), add("u32"), add("toka3"), add("u64"), add("tokb8"), add("u8x3"), add("toka16"), add("bool"), add("vecu32"), add("u16x3"), add("tokah"), add("u128"), add("boxstr"), add("char"), add("opttok"), close(Simple), rm(3), rm(9), add("toka64"), close(Simple), add("u16"), add("vecstr"), close(Simple)]),
         // zero-size only
         p("zst_only", true, true, vec![add("unit"), add("tokaz"), close(Simple), add("u64x0"), rm(0), close(Simple)]),
     ]
